@@ -62,6 +62,7 @@ class Drive402:
         self.mode_writes = []
         self.supported = supported
         self.on_change = None             # callable() when the statusword changed (PDO transport)
+        self.fault_cause_present = False  # while the cause of a fault persists a fault reset is not accepted (CiA 402)
 
     # ---- status
     def statusword(self):
@@ -124,7 +125,7 @@ class Drive402:
         disable_voltage = (b & 0x2) == 0      # 0xxx0x
         quick_stop = (b & 0x6) == 0x2         # 0xx01x
         if cw & 0x80:
-            if s == FAULT and rising_reset:
+            if s == FAULT and rising_reset and not self.fault_cause_present:
                 self._goto(SOD, 15, cw)
             return
         if s == SOD:
